@@ -81,7 +81,7 @@ class _Frozen(Exception):
 SHARED_KINDS = ["td_system", "control", "bath_two_dt", "gibbs_pair",
                 "pt_in_tebd", "parameters", "chain_control", "param_table",
                 "open_params", "guess_parameters", "td_interleaved",
-                "param_system_two_dt", "bath_dynamics"]
+                "param_system_two_dt", "bath_dynamics", "long_file_pt"]
 
 
 def gen_corr(rng):
@@ -503,6 +503,12 @@ def run_case(case, dec):
         return _run_case(case, dec, pristine)
     finally:
         pristine.close()
+        import shutil
+        while _TMPDIRS:
+            shutil.rmtree(_TMPDIRS.pop(), ignore_errors=True)
+
+
+_TMPDIRS = []       # scratch directories of this run (real files)
 
 
 def _run_case(case, dec, pristine):
@@ -1051,6 +1057,45 @@ def _run_case(case, dec, pristine):
                     run(psys2, d_other)
                     got = run(psys2, d_now)
                     want = run(oqupy.ParameterizedSystem(hamp), d_now)
+                elif what == "long_file_pt":
+                    # a long process tensor imported from a file and used
+                    # by several computations of different length, each
+                    # starting again at its first step
+                    need_bath()
+                    cands = [x for x in baths if x["kind"] != "customcorr"] \
+                        or [{"kind": "powerlaw", "coupling": "z", "vals": {
+                            "alpha": 0.2, "zeta": 1.0, "cutoff": 3.0,
+                            "cutoff_type": "exponential",
+                            "temperature": 0.5}}]
+                    b = cands[0]
+                    tol = 1e-9
+                    nlong = 40
+
+                    def mk():
+                        import tempfile
+                        d = tempfile.mkdtemp(prefix="dsim-c20-")
+                        _TMPDIRS.append(d)
+                        tp = oqupy.TempoParameters(dt=0.1, epsrel=1e-8,
+                                                   dkmax=2)
+                        mem = oqupy.pt_tempo_compute(
+                            fresh_bath(b), 0.0, (nlong + 0.5) * 0.1, tp,
+                            progress_type="silent")
+                        path = d + "/long.hdf5"
+                        mem.export(path)
+                        return (oqupy.import_process_tensor(path, "file"),
+                                mem)
+
+                    def run(pt, nsteps):
+                        return oqupy.compute_dynamics(
+                            oqupy.System(0.5 * o["x"] + 0.2 * o["z"]), RHO0,
+                            process_tensor=pt, num_steps=nsteps,
+                            progress_type="silent").states
+                    fpt, mem = mk_shared(
+                        "longfile:%r" % sorted(b["vals"].items()), mk)
+                    n_first = [nlong, 35, 33][var % 3]
+                    n_now = [3, 12, nlong, 31, 33, 17][(dti + 2 * steps) % 6]
+                    run(fpt, n_first)
+                    got, want = run(fpt, n_now), run(mem, n_now)
                 elif what == "bath_dynamics":
                     # one TwoTimeBathCorrelations object answers a series of
                     # questions; it extends its table of system correlations
